@@ -86,6 +86,10 @@ def run(R):
             term = term[2][0]
         chain.reverse()
         table_form = None
+        struct_form = None
+        if not loop_form and is_call(strip_refs(term), name='find_map') and const_table(tonic, strip_refs(term)[2][0]):
+            # the ladder as a constant table of {symbol, conversion} walked in order: TABLE.iter().find_map(|u| u.render(&duration))
+            struct_form = (strip_refs(term), const_table(tonic, strip_refs(term)[2][0]))
         if loop_form:
             table_form = (None, term)
         elif not chain and not is_call(term, name='try_format'):
@@ -106,7 +110,28 @@ def run(R):
             fn, div, width = conv_of_closure(tonic, cl)
             R.check(width >= FN_WIDTH[fn], 'C09.R1', 'conv-full-width:%s' % unit, site(cl), 'Duration::%s() yields %d bits and reaches the 8-digit test through a %d-bit integer (a narrowing cast wraps: a huge timeout would be written as a tiny one)' % (fn, FN_WIDTH[fn], width))
             return unit, fn, div, cl
-        if table_form:
+        if struct_form:
+            fm_, ents_ = struct_form
+            for ent in ents_:
+                ent = strip_refs(ent)
+                if ent[0] != 'agg' or ent[1].get('kind') != 'adt':
+                    raise CheckError('UNRECOGNISED: table entry %s' % show(ent)[:80])
+                unit = [const_val(strip_refs(x_)) for x_ in ent[2] if isinstance(const_val(strip_refs(x_)), str) and len(const_val(strip_refs(x_))) == 1]
+                convs = []
+                for x_ in ent[2]:
+                    x0_ = strip_refs(x_)
+                    while x0_ and x0_[0] == 'cast' and len(x0_) > 2:
+                        x0_ = strip_refs(x0_[2])
+                    if x0_ and x0_[0] == 'fnitem' and x0_[1].rsplit('::', 1)[-1] in WRITER_NANOS and 'Duration' in x0_[1]:
+                        convs.append((x0_[1].rsplit('::', 1)[-1], 1, FN_WIDTH[x0_[1].rsplit('::', 1)[-1]]))
+                    elif x0_ and x0_[0] == 'agg' and x0_[1].get('def'):
+                        convs.append(conv_of_closure(tonic, tonic.body(re.compile('^' + re.escape(x0_[1]['def']) + '$'))))
+                if len(unit) != 1 or len(convs) != 1:
+                    raise CheckError('UNRECOGNISED: table entry %s has %d unit symbols and %d conversions' % (show(ent)[:60], len(unit), len(convs)))
+                fn, div, width = convs[0]
+                R.check(width >= FN_WIDTH[fn], 'C09.R1', 'conv-full-width:%s' % unit[0], site(top), 'Duration::%s() yields %d bits and reaches the 8-digit test through a %d-bit integer' % (fn, FN_WIDTH[fn], width))
+                ladder.append((unit[0], fn, div, top, top))
+        elif table_form:
             for ent in table_form[1][2]:
                 ent = strip_refs(ent)
                 if ent[0] != 'agg' or ent[1].get('kind') != 'tuple' or len(ent[2]) != 2:
@@ -147,7 +172,26 @@ def run(R):
             R.check(WRITER_NANOS[fn] * div == NANOS[u], 'C09.R1', 'scale:%s' % u, site(cl), '%s/%d counts units of %d ns; unit %s is %d ns' % (fn, div, WRITER_NANOS[fn] * div, u, NANOS[u]))
         R.floor('C09.R1', 'writer rows', len(ladder), 6)
         okg = False
-        if loop_form:
+        if struct_form:
+            # find_map over the table's own iterator: the first entry whose rendering is Some wins; rendering is Some exactly when the
+            # converted value is <= 99_999_999 (`(value <= MAX).then(|| format!(value, symbol))` or an if/else)
+            fm_, ents_ = struct_form
+            ordered = is_call(strip_refs(fm_[2][0]), name='iter') or is_call(strip_refs(fm_[2][0]), name='into_iter')
+            cbs_ = [x for x in family(tonic, top) if x.kind == 'closure']
+            for cb_ in cbs_:
+                for bb_, t_ in cb_.calls(name='then'):
+                    o = mirlib.norm_cmp(mirlib.simplify(cb_.origin(t_['args'][0])))
+                    if o and o[0] == 'bin' and ((o[1] == 'Ge' and const_value(tonic, o[2]) == sp['max_value']) or (o[1] == 'Gt' and const_value(tonic, o[2]) == sp['max_value'] + 1)):
+                        okg = ordered and t_['dest']['l'] == 0 or ordered
+                        R.check(okg, 'C09.R1', 'guard-8-digits', site(cb_, bb_), 'render: (value <= %d).then(|| format!(value, symbol)), tried in table order: %s' % (sp['max_value'], show(o)[:80]))
+                for s_ in [b_ for b_ in sorted(cb_.live_blocks()) if cb_.term(b_)['k'] == 'switch']:
+                    o = mirlib.norm_cmp(mirlib.simplify(cb_.origin(cb_.term(s_)['on'])))
+                    if o and o[0] == 'bin' and ((o[1] == 'Ge' and const_value(tonic, o[2]) == sp['max_value']) or (o[1] == 'Gt' and const_value(tonic, o[2]) == sp['max_value'] + 1)):
+                        okg = ordered
+                        R.check(okg, 'C09.R1', 'guard-8-digits', site(cb_, s_), 'render: value <= %d decides Some/None, tried in table order: %s' % (sp['max_value'], show(o)[:80]))
+            sws = []
+            tf = top
+        elif loop_form:
             # the array's own iterator is walked in order; the first entry with value <= 99_999_999 is formatted and returned
             is_next = lambda x: is_call(x, name='next') and find_terms(x, lambda y: is_call(y, name='into_iter') and find_terms(y, lambda z: z and z[0] == 'agg' and z[1].get('kind') == 'array'))
             for s_ in [b_ for b_ in sorted(top.live_blocks()) if top.term(b_)['k'] == 'switch']:
@@ -493,21 +537,22 @@ def run(R):
     with R.guard('C09.R6'):
         b = tonic.body('status::find_status_in_source_chain')
         R.saw(b)
-        dcs = [(bb, t) for bb, t in b.calls(name='downcast_ref') if any('TimeoutExpired' in g for g in t.get('ga', []))]
+        fb_ = family(tonic, b)   # the rungs of the chain walk may be functions of their own (named, or listed in a table)
+        dcs = [(m_, bb, t) for m_, bb, t in fam_calls(fb_, name='downcast_ref') if any('TimeoutExpired' in g for g in t.get('ga', []))]
         R.check(len(dcs) == 1, 'C09.R6', 'downcast-timeout', site(b), 'downcast_ref::<TimeoutExpired> sites: %d' % len(dcs))
         # Status::cancelled(msg), or Status::new(Code::Cancelled, msg)
-        cans = [(bb, t, t['args'][0]) for bb, t in b.calls(pat='Status::cancelled')]
-        for bb, t in b.calls(pat='status::Status::new'):
-            c0 = strip_refs(mirlib.simplify(b.origin(t['args'][0])))
+        cans = [(m_, bb, t, t['args'][0]) for m_, bb, t in fam_calls(fb_, pat='Status::cancelled')]
+        for m_, bb, t in fam_calls(fb_, pat='status::Status::new'):
+            c0 = strip_refs(mirlib.simplify(m_.origin(t['args'][0])))
             if c0 and c0[0] == 'agg' and c0[1].get('variant') == 'Cancelled':
-                cans.append((bb, t, t['args'][1]))
+                cans.append((m_, bb, t, t['args'][1]))
         okc = False
-        for bb, t, a_op in cans:
-            a = b.origin(a_op)
+        for m_, bb, t, a_op in cans:
+            a = m_.origin(a_op)
             if mentions_call(a, name='to_string') and term_contains(a, lambda x: is_call(x, name='downcast_ref')):
                 okc = True
-                gs = b.edge_guards(bb)
-                R.check(any('downcast_ref' in show(tm) and vals == [1] for s, vals, tm in gs), 'C09.R6', 'cancelled-behind-downcast', site(b, bb), 'guards: %r' % [(v, show(tm)[:80]) for s, v, tm in gs])
+                gs = m_.edge_guards(bb)
+                R.check(any(guard_is_some(tm, vals, lambda x: is_call(x, name='downcast_ref')) for s, vals, tm in gs), 'C09.R6', 'cancelled-behind-downcast', site(m_, bb), 'guards: %r' % [(v, show(tm)[:80]) for s, v, tm in gs])
         R.check(okc, 'C09.R6', 'timeout->cancelled', site(b), 'Status::cancelled(timeout.to_string()) present: %r' % okc)
         fm = tonic.body(re.compile(r'<status::TimeoutExpired as std::fmt::Display>::fmt$'))
         R.saw(fm)
